@@ -61,6 +61,7 @@ type hamSlot struct {
 type ham struct {
 	kind    string // stateful | stateless | sse
 	n       int
+	nmw     int // observing middlewares registered
 	handler http.Handler
 	self    any
 	sids    []string // the session of worker w (fixed before the workers start; stateless: unused)
@@ -230,11 +231,24 @@ func (h *ham) notifHandler(ctx context.Context, n *mcp.JSONRPCNotification) erro
 	return nil
 }
 
-func newHam(kind string, n int) *ham {
-	h := &ham{kind: kind, n: n, slots: make([]hamSlot, n), sids: make([]string, n)}
+// newHam: a server of the given kind with nmw observing middlewares, registered by one variadic option or one by one
+// (the registered slice grows by append: with 3, 5-7, 9+ middlewares it has spare capacity).
+func newHam(kind string, n, nmw int, oneByOne bool) *ham {
+	h := &ham{kind: kind, n: n, nmw: nmw, slots: make([]hamSlot, n), sids: make([]string, n)}
+	mws := make([]mcp.Middleware, nmw)
+	for i := range mws {
+		mws[i] = h.middleware
+	}
 	if kind != "sse" {
 		opts := hk.SrvCfg{Mode: kind, Get: false, PostSSE: true}.Opts()
-		opts = append(opts, mcp.WithHTTPContextFunc(h.ctxFn1), mcp.WithHTTPContextFunc(h.ctxFn2), mcp.WithMiddleware(h.middleware), mcp.WithToolListFilter(h.toolFilter))
+		opts = append(opts, mcp.WithHTTPContextFunc(h.ctxFn1), mcp.WithHTTPContextFunc(h.ctxFn2), mcp.WithToolListFilter(h.toolFilter))
+		if oneByOne {
+			for _, m := range mws {
+				opts = append(opts, mcp.WithMiddleware(m))
+			}
+		} else if nmw > 0 {
+			opts = append(opts, mcp.WithMiddleware(mws...))
+		}
 		s := mcp.NewServer("verif-hammer", "1.0", opts...)
 		s.RegisterTool(mcp.NewTool(hamTool), h.toolHandler)
 		s.RegisterTool(mcp.NewTool("ham-other"), h.toolHandler)
@@ -243,8 +257,15 @@ func newHam(kind string, n int) *ham {
 		h.handler, h.self = s.Handler(), s
 		return h
 	}
-	s := mcp.NewSSEServer("verif-hammer", "1.0", mcp.WithSSEServerLogger(hk.QuietLogger{}), mcp.WithSSEContextFunc(h.ctxFnBoth),
-		mcp.WithSSEMiddleware(h.middleware), mcp.WithSSEToolListFilter(h.toolFilter))
+	sopts := []mcp.SSEOption{mcp.WithSSEServerLogger(hk.QuietLogger{}), mcp.WithSSEContextFunc(h.ctxFnBoth), mcp.WithSSEToolListFilter(h.toolFilter)}
+	if oneByOne {
+		for _, m := range mws {
+			sopts = append(sopts, mcp.WithSSEMiddleware(m))
+		}
+	} else if nmw > 0 {
+		sopts = append(sopts, mcp.WithSSEMiddleware(mws...))
+	}
+	s := mcp.NewSSEServer("verif-hammer", "1.0", sopts...)
 	s.RegisterTool(mcp.NewTool(hamTool), h.toolHandler)
 	s.RegisterTool(mcp.NewTool("ham-other"), h.toolHandler)
 	s.RegisterPrompt(&mcp.Prompt{Name: hamPrompt}, h.promptHandler)
@@ -555,9 +576,9 @@ func (h *ham) run(seed int64, dur time.Duration, maxPerWorker int) (st hamStats,
 					want = *p
 					temps[w] = append(temps[w], want)
 				}
-				// mw + (filter | handler)
-				if got := sl.stages.Load() - before; got < 2 {
-					h.fail(w, "stages", fmt.Sprintf("%s %s: %d stages recorded a context for the request, expected the middleware and the method's own stage", method, tok, got))
+				// every middleware + (filter | handler)
+				if got := sl.stages.Load() - before; got < int64(h.nmw)+1 {
+					h.fail(w, "stages", fmt.Sprintf("%s %s: %d stages recorded a context for the request, expected the %d middlewares and the method's own stage", method, tok, got, h.nmw))
 				}
 				h.verifyAnswer(w, method, tok, want, ans, notifs, acceptSSE)
 			}
@@ -594,11 +615,14 @@ func (h *ham) run(seed int64, dur time.Duration, maxPerWorker int) (st hamStats,
 	return st, nil
 }
 
-// runHammer: the in-process high-parallelism phase, one server per kind.
+// runHammer: the in-process high-parallelism phase. Streamable stateful and stateless: one server per middleware
+// count 0..10 and registration style (one variadic option / one option per middleware); legacy SSE: a few counts.
 func runHammer(c *hk.Ctx) {
-	n, dur, maxPer := 8, 1500*time.Millisecond, 60000
+	n, dur, sseDur, maxPer := 8, 120*time.Millisecond, 300*time.Millisecond, 60000
+	sseCounts := []int{0, 1, 3, 6}
 	if c.Thorough() {
-		n, dur, maxPer = 16, 5*time.Second, 400000
+		n, dur, sseDur, maxPer = 16, 400*time.Millisecond, 600*time.Millisecond, 400000
+		sseCounts = []int{0, 1, 2, 3, 4, 5, 6, 7, 8, 9, 10}
 	}
 	def := runtime.GOMAXPROCS(0)
 	procs := def
@@ -608,14 +632,41 @@ func runHammer(c *hk.Ctx) {
 	runtime.GOMAXPROCS(procs)
 	defer runtime.GOMAXPROCS(def)
 	extra := map[string]any{"workers": n, "gomaxprocs": procs, "cpus": runtime.NumCPU()}
-	for _, kind := range []string{"stateful", "stateless", "sse"} {
-		h := newHam(kind, n)
-		st, err := h.run(c.Rng.Int63(), dur, maxPer)
+	type srvSpec struct {
+		kind     string
+		nmw      int
+		oneByOne bool
+		dur      time.Duration
+	}
+	var specs []srvSpec
+	for _, kind := range []string{"stateful", "stateless"} {
+		for nmw := 0; nmw <= 10; nmw++ {
+			specs = append(specs, srvSpec{kind, nmw, false, dur})
+			if nmw > 1 {
+				specs = append(specs, srvSpec{kind, nmw, true, dur})
+			}
+		}
+	}
+	for i, nmw := range sseCounts {
+		specs = append(specs, srvSpec{"sse", nmw, i%2 == 1, sseDur})
+	}
+	type sums struct{ requests, stages, notifs, servers int64 }
+	tot := map[string]*sums{}
+	for _, sp := range specs {
+		kind := sp.kind
+		h := newHam(kind, n, sp.nmw, sp.oneByOne)
+		st, err := h.run(c.Rng.Int63(), sp.dur, maxPer)
 		if err != nil {
 			c.Violate(hk.Violation{Fingerprint: "ctx:" + kind + ":setup", What: "could not set up the in-process hammer phase: " + err.Error(), Input: kind})
 			continue
 		}
-		extra[kind] = map[string]any{"requests": st.requests, "stage_checks": st.stages, "notifications": st.notifsSent}
+		if tot[kind] == nil {
+			tot[kind] = &sums{}
+		}
+		tot[kind].requests += st.requests
+		tot[kind].stages += st.stages
+		tot[kind].notifs += st.notifsSent
+		tot[kind].servers++
 		// one violation per fingerprint, with the number of occurrences
 		type agg struct {
 			msg string
@@ -640,13 +691,14 @@ func runHammer(c *hk.Ctx) {
 		sort.Strings(keys)
 		for _, k := range keys {
 			c.Violate(hk.Violation{Fingerprint: "ctx:" + kind + ":" + k,
-				What:     "in-process parallel phase (" + strconv.Itoa(n) + " goroutines, each bound to its own session, calling ServeHTTP back to back): " + fails[k].msg,
-				Input:    map[string]any{"phase": "hammer", "kind": kind, "workers": n, "gomaxprocs": procs},
+				What:     "in-process parallel phase (" + strconv.Itoa(n) + " goroutines, each bound to its own session, calling ServeHTTP back to back; " + strconv.Itoa(sp.nmw) + " middlewares): " + fails[k].msg,
+				Input:    map[string]any{"phase": "hammer", "kind": kind, "workers": n, "gomaxprocs": procs, "middlewares": sp.nmw, "registeredOneByOne": sp.oneByOne},
 				Observed: map[string]any{"occurrences": fails[k].n, "requests": st.requests}})
 		}
-		for w := 0; w < n; w++ {
-			c.Count(fmt.Sprintf("ctx.hammer:%s:%d", kind, w), st.requests > int64(n) && len(fails) == 0, nil, "hammer:"+kind)
-		}
+		c.Count(fmt.Sprintf("ctx.hammer:%s:%d:%v", kind, sp.nmw, sp.oneByOne), st.requests > int64(n) && len(fails) == 0, nil, "hammer:"+kind, fmt.Sprintf("hammer-middlewares:%d", sp.nmw))
+	}
+	for k, t := range tot {
+		extra[k] = map[string]any{"servers": t.servers, "requests": t.requests, "stage_checks": t.stages, "notifications": t.notifs}
 	}
 	c.SetExtra("hammer", extra)
 }
